@@ -10,5 +10,7 @@ func (m *Manager) GetWAL() *wal.WAL {
 	m.mu.RLock()
 	defer m.mu.RUnlock()
 
-	return m.wal
+	// The WAL pointer is swapped atomically by rotations that do not hold the
+	// storage lock (background flush), so it has to be loaded atomically too
+	return m.getWAL()
 }
